@@ -32,6 +32,9 @@ func FuzzAdmit(f *testing.F) {
 		}
 		if sel&4 != 0 {
 			c.Policy = policySpec{Kind: "table", Table: []int{0, 0, 1, 2, 3, 0, 3, 0, 1}, Salt: int(sel >> 3)}
+			if sel&0x40 != 0 {
+				c.Policy.Kind = "global"
+			}
 		}
 		if sel&0x80 != 0 { // a well-formed neighbour before and after: no cross-talk between packets
 			q := fixedQueries()[0]
